@@ -1,12 +1,10 @@
 // ---- shared vocabulary of the find matcher units (DESIGN section 4) ----
+//@ include prelude/ast.rs
+//@ include prelude/actions.rs
 // Ast: shape of a matcher tree.  Prim(k): a primary, identified by an abstract
 // identity k (primaries are uninterpreted functions of (entry, io)).
-pub enum Ast { Prim(int), Not(Box<Ast>), And(Seq<Ast>), Or(Seq<Ast>), List(Seq<Ast>) }
 
 pub uninterp spec fn prim_sem<'a>(id: int, e: &WalkEntry, io: MatcherIO<'a>) -> (bool, MatcherIO<'a>);
-/// the action table of C01: -print -print0 -printf -fprint* -ls -fls -exec* -delete
-pub uninterp spec fn prim_is_action(id: int) -> bool;
-
 // Reference evaluation of C01, taken from the property statement: -a and -o
 // evaluate left to right with short circuit, ',' evaluates every operand and
 // yields the last, and every composite stops as soon as -quit has fired.
@@ -46,28 +44,7 @@ pub open spec fn eval_list<'a>(s: Seq<Ast>, i: int, rc: bool, e: &WalkEntry, io:
     }
 }
 
-// "the expression contains an action", however nested, negated or unreachable
-pub open spec fn has_action(a: Ast) -> bool
-    decreases a, 0nat
-{
-    match a {
-        Ast::Prim(id) => prim_is_action(id),
-        Ast::Not(b) => has_action(*b),
-        Ast::And(s) => any_action(s, 0),
-        Ast::Or(s) => any_action(s, 0),
-        Ast::List(s) => any_action(s, 0),
-    }
-}
-pub open spec fn any_action(s: Seq<Ast>, i: int) -> bool
-    decreases s, s.len() - i
-{
-    if i < 0 || i >= s.len() { false } else { has_action(s[i]) || any_action(s, i + 1) }
-}
-
 pub open spec fn asts(v: Seq<Box<dyn Matcher>>) -> Seq<Ast> { Seq::new(v.len(), |k: int| v[k].ast()) }
-pub open spec fn mk_and(s: Seq<Ast>) -> Ast { if s.len() == 1 { s[0] } else { Ast::And(s) } }
-pub open spec fn mk_or(ss: Seq<Seq<Ast>>) -> Ast { if ss.len() == 1 { mk_and(ss[0]) } else { Ast::Or(Seq::new(ss.len(), |k: int| mk_and(ss[k]))) } }
-pub open spec fn mk_list(g: Seq<Seq<Seq<Ast>>>) -> Ast { if g.len() == 1 { mk_or(g[0]) } else { Ast::List(Seq::new(g.len(), |k: int| mk_or(g[k]))) } }
 
 // error values are not modelled (R5): only Ok/Err
 pub struct VErr;
